@@ -261,6 +261,7 @@ def fits : Conv → GoVal → Bool
   | .bool, .bool _ => true
   | .strList, .strs _ => true
   | .bytes, .bytes _ => true
+  | .float, .float _ => true
   | _, _ => false
 
 def fitsAll : List Conv → List GoVal → Bool
@@ -278,6 +279,9 @@ def accepts : Conv → Val → Bool
   | .bytes, .bytes _ => true
   | .bytes, .str _ => true
   | .strList, .list xs => (Vals.toStrs xs).isSome
+  | .float, .float _ => true
+  | .float, .int _ => true
+  | .float, .byte _ => true
   | _, _ => false
 
 /-- `project` is defined exactly on the accepted object types: every other argument yields
